@@ -428,9 +428,12 @@ func hasNestedStructure(v cadence.Value) bool {
 // ---------------------------------------------------------------------------
 // round trips of a returned value
 
+// Comparison after a round trip: what the codec does not carry is erased (JSON-CDC: static types of containers;
+// CCF: initializers etc. of inline types, order of dictionary entries and type sets), and a nil at any optional
+// depth is the same value (the language flattens optionals: CCF decodes the nil of an `Int??` slot as some(nil)).
 var (
-	jsonMode = cdcval.Erased
-	ccfMode  = cdcval.Mode{Static: cdcval.TInline, Borrow: cdcval.TInline, DictSet: true, SetTypes: true}
+	jsonMode = cdcval.Mode{Static: cdcval.TNone, Borrow: cdcval.TFull, NilFlat: true}
+	ccfMode  = cdcval.Mode{Static: cdcval.TInline, Borrow: cdcval.TInline, DictSet: true, SetTypes: true, NilFlat: true}
 )
 
 // roundTrip encodes, decodes and compares v through JSON-CDC and CCF.
